@@ -16,7 +16,7 @@ from pams.market import Market  # noqa: E402
 from pams.simulator import Simulator  # noqa: E402
 
 ID = "C13"
-RULE = ("(one case in three lists the same event entry under two sessions: each listing is an event of its own) (sim) configurations as for C05 with 1-2 user-written probe events per session, each with 1-5 hooks over all nine "
+RULE = ("(interleaving: the after-execution hooks of a round run before the next order or cancel is accepted, and an order's before hook runs only after the previous element of the same submission was accepted; half of the runs carry a TradingHaltRule) (one case in three lists the same event entry under two sessions: each listing is an event of its own) (sim) configurations as for C05 with 1-2 user-written probe events per session, each with 1-5 hooks over all nine "
         "(type, before/after) combinations, time lists None, empty, or 1-6 distinct times inside and outside the run, class filter "
         "None/Market/IndexMarket, instance filter None/a market; one event may rewrite price and volume of pending orders; one run in four has no logger attached. "
         "The expected invocation multiset is computed from ground-truth occurrences (orders and cancels the agents returned, "
